@@ -67,6 +67,8 @@ pub enum Val {
     SW(i64),
     /// unsigned word bound to the final index of entry #k (k = position in the spec's entry list)
     Ref(usize),
+    /// unsigned word (closure) giving 1 + the final index of entry #k ("parent + 1, 0 = no parent")
+    RefP1(usize),
     /// signed word (closure) giving the final index of entry #k
     SRef(usize),
     /// signed word (closure) giving final index of entry #k minus the final index of the entry itself
@@ -169,6 +171,7 @@ impl Val {
                 }
             }
             Val::Ref(k) => json!({"ref": k}),
+            Val::RefP1(k) => json!({"refp1": k}),
             Val::SRef(k) => json!({"sref": k}),
             Val::SRel(k) => json!({"srel": k}),
         }
@@ -187,6 +190,8 @@ impl Val {
             Val::C(v[0].as_u64().unwrap() as u16, v[1].as_u64().unwrap() as u32)
         } else if let Some(v) = j.get("a") {
             Val::A(crate::unhex(v.as_str().unwrap()))
+        } else if let Some(v) = j.get("refp1") {
+            Val::RefP1(v.as_u64().unwrap() as usize)
         } else if let Some(v) = j.get("sref") {
             Val::SRef(v.as_u64().unwrap() as usize)
         } else if let Some(v) = j.get("srel") {
@@ -380,6 +385,14 @@ pub fn populate(
                         None => binds[*t].clone(),
                     };
                     jbk::Value::UnsignedWord(bound.into())
+                }
+                Val::RefP1(t) => {
+                    let target = match &returned[*t] {
+                        Some(b) => b.clone(),
+                        None => binds[*t].clone(),
+                    };
+                    let f: Box<dyn Fn() -> u64 + Sync + Send> = Box::new(move || target.get().into_u64() + 1);
+                    jbk::Value::UnsignedWord(f.into())
                 }
                 Val::SRef(t) => {
                     let target = match &returned[*t] {
@@ -584,6 +597,7 @@ pub fn expected_entry(spec: &DirSpec, k: usize, final_pos: &dyn Fn(usize) -> u64
             Val::C(p, c) => RVal::C(*p, *c),
             Val::A(a) => RVal::A(a.clone()),
             Val::Ref(t) => RVal::U(final_pos(*t)),
+            Val::RefP1(t) => RVal::U(final_pos(*t) + 1),
             Val::SRef(t) => RVal::S(final_pos(*t) as i64),
             Val::SRel(t) => RVal::S(final_pos(*t) as i64 - final_pos(k) as i64),
         };
